@@ -389,3 +389,177 @@ Lemma private_temp_example :
   resolve (dsk (run w_gunzip w_srv (init (progs [BIndex "i"; BIndex "i"])) t_sched)) (PIndex "i" "E")
     = Some (["i1"; "i2"], true).
 Proof. vm_compute. reflexivity. Qed.
+
+(* ---- what a temporary file of an index download can hold --------------------- *)
+(* (fetchOffline opens the newest entry of APKINDEX/, which may be such a file) *)
+Lemma skipn_cons_firstn : forall (w : content) k c tl, skipn k w = c :: tl ->
+  firstn (S k) w = firstn k w ++ [c] /\ skipn (S k) w = tl.
+Proof.
+  induction w as [|x w IH]; intros k c tl H.
+  - destruct k; discriminate.
+  - destruct k as [|k].
+    + simpl in H. inversion H; subst. split; reflexivity.
+    + simpl in H. destruct (IH k c tl H) as [A B]. split.
+      * change (firstn (S (S k)) (x :: w)) with (x :: firstn (S k) w). rewrite A. reflexivity.
+      * exact B.
+Qed.
+Lemma skipn_nil_firstn : forall (w : content) k, skipn k w = [] -> firstn k w = w.
+Proof.
+  induction w as [|x w IH]; intros k H; destruct k; simpl in *; try discriminate; auto.
+  f_equal. auto.
+Qed.
+
+Definition obj_opt_eq_dec (a b : option obj) : {a = b} + {a <> b}.
+Proof.
+  decide equality. decide equality; try apply path_eq_dec; try apply Bool.bool_dec.
+  apply list_eq_dec, string_dec.
+Defined.
+
+Section IdxTmp.
+Variable gunzip : content -> content.
+Variable srv : server.
+
+(* the response (etag, body) was given by the origin at some earlier step *)
+Definition answered (now : nat) (dir : string) (e : string) (w : content) : Prop :=
+  exists t, t < now /\ srv t dir = (e, w).
+
+(* the states of one faithful index download [j] in directory [dir]: its remaining
+   program and what its temporary file holds ([f] = the disk at PTmpFile dir j) *)
+Inductive idx_state (j : nat) (dir : string) (f : option obj) (now : nat) : list astep -> Prop :=
+| IS_head : f = None -> idx_state j dir f now [Head j dir false]
+| IS_stat : forall e, f = None -> idx_state j dir f now [IdxStat j dir e false]
+| IS_get : f = None -> idx_state j dir f now [Get j dir None]
+| IS_none : f = None -> idx_state j dir f now []           (* a hit, or the own copy removed *)
+| IS_start : forall e w, answered now dir e w -> f = None ->
+    idx_state j dir f now (populate_index j dir e w)
+| IS_create : forall e w, answered now dir e w -> f = None ->
+    idx_state j dir f now (write_file (PTmpFile dir j) w ++ adv_steps [(PTmpFile dir j, PIndex dir e)])
+| IS_write : forall e w k, answered now dir e w -> f = Some (File (firstn k w) false) ->
+    idx_state j dir f now ((List.map (Append (PTmpFile dir j)) (skipn k w) ++ [Close (PTmpFile dir j)]) ++
+                           adv_steps [(PTmpFile dir j, PIndex dir e)])
+| IS_closed : forall e w rest, answered now dir e w -> f = Some (File w true) ->
+    rest = adv_steps [(PTmpFile dir j, PIndex dir e)] \/ rest = [Symlink (PTmpFile dir j) (PIndex dir e)] \/
+    rest = [Remove (PTmpFile dir j)] \/ rest = [] ->
+    idx_state j dir f now rest.
+
+Lemma answered_mono : forall now dir e w, answered now dir e w -> answered (S now) dir e w.
+Proof. intros now dir e w (t & Ht & E). exists t. split; auto. Qed.
+
+Lemma idx_state_tick : forall j dir f now prog, idx_state j dir f now prog -> idx_state j dir f (S now) prog.
+Proof.
+  intros j dir f now prog H. inversion H; subst;
+    try (constructor; auto; fail);
+    [eapply IS_start | eapply IS_create | eapply IS_write | eapply IS_closed]; eauto using answered_mono.
+Qed.
+
+(* one step of the download itself *)
+Lemma idx_state_step : forall j dir d now a rest,
+  idx_state j dir (d (PTmpFile dir j)) now (a :: rest) ->
+  idx_state j dir (fst (exec_t gunzip srv now d a) (PTmpFile dir j)) (S now)
+            (snd (exec_t gunzip srv now d a) ++ rest).
+Proof.
+  intros j dir d now a rest H.
+  remember (a :: rest) as prog eqn:Ep.
+  destruct H as [Hf | e Hf | Hf | Hf | e w Ha Hf | e w Ha Hf | e w k Ha Hf | e w rest' Ha Hf Hr].
+  - (* HEAD *) inversion Ep; subst. cbn [exec_t fst snd app]. apply IS_stat. exact Hf.
+  - (* Stat *) inversion Ep; subst. cbn [exec_t exec fst snd].
+    destruct (resolve d (PIndex dir e)); cbn [app]; [apply IS_none | apply IS_get]; exact Hf.
+  - (* GET *) inversion Ep; subst. cbn [exec_t]. destruct (srv now dir) as [e2 body] eqn:E. cbn [fst snd].
+    rewrite app_nil_r. apply IS_start; [exists now; split; auto | exact Hf].
+  - discriminate.
+  - (* MkdirAll *)
+    unfold populate_index in Ep. inversion Ep; subst. cbn [exec_t exec fst snd app].
+    destruct (d (PDir dir)); [|rewrite upd_other by discriminate];
+      (apply IS_create; [apply answered_mono; exact Ha | exact Hf]).
+  - (* CreateTemp *)
+    unfold write_file in Ep. cbn [app] in Ep. inversion Ep; subst. cbn [exec_t exec fst snd app].
+    rewrite upd_same. apply (IS_write j dir _ _ e w 0); [apply answered_mono; exact Ha | reflexivity].
+  - (* a write, or the close *)
+    destruct (skipn k w) as [|c tl] eqn:Ek; cbn [List.map app] in Ep; inversion Ep; subst.
+    + (* Close *) cbn [exec_t exec fst snd app]. rewrite Hf. rewrite upd_same.
+      rewrite (skipn_nil_firstn w k Ek).
+      eapply IS_closed; [apply answered_mono; exact Ha | reflexivity | left; reflexivity].
+    + cbn [exec_t exec fst snd app]. rewrite Hf. rewrite upd_same.
+      destruct (skipn_cons_firstn w k c tl Ek) as [A B]. rewrite <- A, <- B.
+      apply (IS_write j dir _ _ e w (S k)); [apply answered_mono; exact Ha | reflexivity].
+  - (* AdvertiseCachedFile and what follows *)
+    destruct Hr as [-> | [-> | [-> | ->]]]; inversion Ep; subst.
+    + cbn [exec_t exec fst snd].
+      destruct (resolve d (PIndex dir e)); cbn [app];
+        (eapply IS_closed; [apply answered_mono; exact Ha | exact Hf | auto]).
+    + cbn [exec_t exec fst snd app].
+      destruct (d (PIndex dir e)); [|rewrite upd_other by discriminate];
+        (eapply IS_closed; [apply answered_mono; exact Ha | exact Hf | auto]).
+    + cbn [exec_t exec fst snd app]. rewrite upd_same. apply IS_none. reflexivity.
+Qed.
+
+Definition IdxTmp (bs : list builder) (s : sys) : Prop :=
+  forall j dir, nth_error bs j = Some (BIndex dir) ->
+    exists prog, nth_error (procs s) j = Some prog /\ idx_state j dir (dsk s (PTmpFile dir j)) (clk s) prog.
+
+Lemma IdxTmp_step : forall bs s i, Owned s -> IdxTmp bs s -> IdxTmp bs (step gunzip srv s i).
+Proof.
+  intros bs s i HO H j dir Hb. destruct (H j dir Hb) as (prog & Hj & Hst).
+  destruct (step_cases gunzip srv s i) as [[_ ->] | (a & rest & Ei & ->)]; cbn [dsk procs clk].
+  - exists prog. split; auto. apply idx_state_tick. exact Hst.
+  - destruct (Nat.eq_dec j i) as [->|Hne].
+    + rewrite Ei in Hj. inversion Hj; subst prog. eexists. split; [eapply set_nth_same; eauto|].
+      apply idx_state_step. exact Hst.
+    + exists prog. split; [rewrite set_nth_other; auto|].
+      assert (Hsame : fst (exec_t gunzip srv (clk s) (dsk s) a) (PTmpFile dir j) = dsk s (PTmpFile dir j)).
+      { destruct (obj_opt_eq_dec (fst (exec_t gunzip srv (clk s) (dsk s) a) (PTmpFile dir j)) (dsk s (PTmpFile dir j)))
+          as [E|N]; [exact E|exfalso].
+        destruct (HO i _ Ei) as [HW HD].
+        apply exec_changes in N. destruct N as [N|N].
+        - assert (Ho : owner (PTmpFile dir j) = Some i).
+          { apply HW. change (a :: rest) with ([a] ++ rest). rewrite writes_app. apply in_or_app. auto. }
+          simpl in Ho. congruence.
+        - assert (Ho : owner (PTmpFile dir j) = None).
+          { apply HD. change (a :: rest) with ([a] ++ rest). rewrite dsts_app. apply in_or_app. auto. }
+          discriminate. }
+      rewrite Hsame. apply idx_state_tick. exact Hst.
+Qed.
+End IdxTmp.
+
+Lemma IdxTmp_run : forall gunzip srv bs sched s, Owned s -> IdxTmp srv bs s -> IdxTmp srv bs (run gunzip srv s sched).
+Proof.
+  intros gunzip srv bs. unfold run. induction sched as [|i sched IH]; simpl; intros s HO H; auto.
+  apply IH; [apply Owned_step; exact HO | apply IdxTmp_step; assumption].
+Qed.
+
+Lemma nth_progs_from_some : forall cl bs k j b, nth_error bs j = Some b ->
+  nth_error (progs_from cl k bs) j = Some (prog_of_ord cl (k + j) b).
+Proof.
+  induction bs as [|b0 bs IH]; intros k j b H; destruct j; simpl in *; try discriminate.
+  - inversion H; subst. rewrite Nat.add_0_r. reflexivity.
+  - rewrite (IH (S k) j b H). f_equal. f_equal. lia.
+Qed.
+
+(* In every reachable state — every origin, builders, schedule, kills; no
+   hypothesis —: the temporary file of an index download is absent, or holds a
+   PREFIX of the body of a response the origin really gave at an earlier step
+   for that directory; and if it is complete (written in full and closed) it
+   holds that whole body: a complete origin revision, together with whose etag
+   it was served. *)
+Theorem index_tmp_is_origin_prefix : forall gunzip srv cl bs sched j dir,
+  let s := run gunzip srv (init (progs_ord cl bs)) sched in
+  nth_error bs j = Some (BIndex dir) ->
+  match dsk s (PTmpFile dir j) with
+  | None => True
+  | Some (File c b) =>
+      exists t e w k, t < clk s /\ srv t dir = (e, w) /\ c = firstn k w /\ (b = true -> c = w)
+  | Some _ => False
+  end.
+Proof.
+  intros gunzip srv cl bs sched j dir s Hb.
+  assert (H0 : IdxTmp srv bs (init (progs_ord cl bs))).
+  { intros j0 dir0 Hb0. eexists. split.
+    - cbn [init procs]. unfold progs_ord. rewrite (nth_progs_from_some cl bs 0 j0 _ Hb0). reflexivity.
+    - cbn [prog_of_ord]. change (0 + j0) with j0. apply IS_head. reflexivity. }
+  destruct (IdxTmp_run gunzip srv bs sched _ (Owned_init cl bs) H0 j dir Hb) as (prog & _ & Hst).
+  fold s in Hst. inversion Hst as [Hf | e Hf | Hf | Hf | e w Ha Hf | e w Ha Hf | e w k Ha Hf | e w rest' Ha Hf Hr];
+    try (rewrite Hf; exact I).
+  - rewrite Hf. destruct Ha as (t & Ht & E). exists t, e, w, k. repeat split; auto. discriminate.
+  - rewrite Hf. destruct Ha as (t & Ht & E). exists t, e, w, (List.length w). repeat split; auto.
+    symmetry. apply firstn_all.
+Qed.
